@@ -28,6 +28,9 @@ var typeNames = []string{
 	"Transaction", "AdHocSubProcess", "Activity",
 }
 
+// short codes used in case keys (Spec.Key); '#' marks a preset id
+var typeCodes = []string{"T", "BR", "U", "CA", "M", "SN", "SC", "SV", "R", "SP", "TX", "AH", "A"}
+
 const nSupported = 10
 
 func newAct(t int) schema.ActivityInterface {
@@ -154,12 +157,27 @@ func seqString(seq []Sym) string {
 	return strings.Join(parts, ",")
 }
 
+// Key identifies the case compactly, e.g. "T,SV#|SV#,T /reuse /layout=default" (codes: typeCodes).
 func (s Spec) Key() string {
-	parts := make([]string, len(s.Procs))
+	var sb strings.Builder
 	for i, p := range s.Procs {
-		parts[i] = seqString(p)
+		if i > 0 {
+			sb.WriteByte('|')
+		}
+		if len(p) == 0 {
+			sb.WriteByte('-')
+		}
+		for j, sym := range p {
+			if j > 0 {
+				sb.WriteByte(',')
+			}
+			sb.WriteString(typeCodes[sym.Type])
+			if sym.Preset {
+				sb.WriteByte('#')
+			}
+		}
 	}
-	k := strings.Join(parts, " | ")
+	k := sb.String()
 	if s.Reuse {
 		k += " /reuse"
 	}
@@ -216,6 +234,7 @@ type Built struct {
 	Procs []*schema.Process // what pb.Out() returned, in order
 	Acts  [][]string        // per process: activity ids in insertion order (as left on the caller's objects)
 	Types [][]int           // per process: activity type index in insertion order
+	Want  [][]string        // per process: the preset id of each activity ("" = generated by the builder)
 	Calls int64             // builder API calls made
 }
 
@@ -269,12 +288,15 @@ func buildOpen(s Spec) (b *Built, where, panicked string) {
 			}
 			b.Calls++
 		}
-		var ids []string
+		var ids, want []string
 		var types []int
 		for j, sym := range seq {
 			act := newAct(sym.Type)
 			if sym.Preset {
 				act.SetId(schema.NewStringP(presetID(i, j)))
+				want = append(want, presetID(i, j))
+			} else {
+				want = append(want, "")
 			}
 			where = "ProcessBuilder.AddActivity(" + sym.String() + ")"
 			if panicked = guard(func() { pb.AddActivity(act) }); panicked != "" {
@@ -305,6 +327,7 @@ func buildOpen(s Spec) (b *Built, where, panicked string) {
 		b.Procs = append(b.Procs, p)
 		b.Acts = append(b.Acts, ids)
 		b.Types = append(b.Types, types)
+		b.Want = append(b.Want, want)
 	}
 	if s.Default {
 		where = "DefinitionBuilder.AutoLayout"
